@@ -1207,6 +1207,20 @@ def b_grid(S):
     return out
 
 
+def b_grid_loops(S):
+    """whole `create_grid`: counts, origins and BOTH loops (columns outside, rows inside, a column restarts at the top) as executable code;
+    a cell polygon is recorded by its (left, right, bottom, top)"""
+    corners = "Polygon([(x_left_origin, y_top), (x_right_origin, y_top), (x_right_origin, y_bottom), (x_left_origin, y_bottom)])"
+    C = {"lines.total_bounds": "(x_min0, y_min0, x_max0, y_max0)", corners: "(x_left_origin, x_right_origin, y_bottom, y_top)"}
+    T = {"lines.total_bounds": "Rat × Rat × Rat × Rat", corners: "Rat × Rat × Rat × Rat", "polygons": "List (Rat × Rat × Rat × Rat)",
+         "rows": "Int", "cols": "Int", "cell_height": "Rat", "x_left_origin": "Rat", "x_right_origin": "Rat", "y_top_origin": "Rat", "y_bottom_origin": "Rat",
+         "y_top": "Rat", "y_bottom": "Rat"}
+    return translate_function(
+        S[GRID], "create_grid", "create_grid_cells", {"cell_width": "Rat"}, "List (Rat × Rat × Rat × Rat)", C, types=T,
+        extra_params=[("x_min0", "Rat"), ("y_min0", "Rat"), ("x_max0", "Rat"), ("y_max0", "Rat")],
+        slice_from="x_min, y_min, x_max, y_max = lines.total_bounds", slice_to="grid = gpd.GeoDataFrame", returns_var="polygons", default_num="Rat", join="tuple")
+
+
 def _find_compare(source, qual, contains):
     tree = ast.parse(source)
     fn = find_func(tree, qual)
@@ -1347,6 +1361,7 @@ ITEMS: List[Item] = [
     Item("ValidationDefaults", TVAL, ["C10", "C03", "C16"], b_validation_defaults),
     Item("CacheDecorated", GENERAL, ["C17"], b_cache_decorated, extra_modules=[m for m in ALL_MODULES if m != GENERAL]),
     Item("Grid", GRID, ["C18"], b_grid),
+    Item("GridLoops", GRID, ["C18"], b_grid_loops),
     Item("IndexMargins", GENERAL, ["C16"], b_index_margins, extra_modules=[PROX]),
     Item("Cli", CLI, ["C19"], b_cli),
     Item("DetermineIntersect", REL, ["C12"], b_determine_intersect),
